@@ -60,6 +60,7 @@ CRH(P) ==             \* cross ratio of four collinear points from two coordinat
 \* ---- the operation table: name -> sequence of configurations (each a sequence of arguments) ------------------
 Q1 == SphereM(<<1, 2>>, 4)      \* circle, centre (1,2), radius 2: contains (3,2), (1,4), (-1,2), (1,0)
 Q2 == << <<1,0,0>>, <<0,-1,0>>, <<0,0,-1>> >>
+DiagM(d) == [i \in 1..Len(d) |-> [j \in 1..Len(d) |-> IF i = j THEN d[i] ELSE 0]]
 T1 == << <<1,2,0>>, <<0,1,1>>, <<1,0,2>> >>
 T2 == << <<1,1,0>>, <<0,1,0>>, <<0,0,1>> >>
 TriA == << <<0,0,1>>, <<4,1,1>>, <<1,3,1>> >>
@@ -112,7 +113,12 @@ Configs(o) ==
                            QuadA \o [QuadA EXCEPT ![3] = <<4,5,1>>], Tri3 \o Rot(Rev(Tri3), 1), Tri3 \o Rot(Tri3, 2),
                            Quad3 \o Rot(Rev(Quad3), 2), Quad3 \o [Rev(Quad3) EXCEPT ![2] = <<1,1,1,1>>],
                            << <<1,2,1>>, <<4,0,1>> >> \o << <<4,0,1>>, <<1,2,1>> >>, << <<1,2,1>>, <<4,0,1>> >> \o << <<4,0,1>>, <<1,3,1>> >> >>
-OpNames == {"eq_pp", "contains_lp", "dist_pp", "dist_lp", "angle_ppp", "crossratio", "join_pp", "meet_ll", "seg_contains", "poly_contains",
+    \* equality of matrices (transformations, quadrics): multiples; a column rescaled; a row rescaled; one entry changed
+    [] o = "eq_mat" -> << <<T1, MatScale(-3, T1)>>, <<T1, MatMul(T1, DiagM(<<2, 3, 1>>))>>, <<T1, MatMul(DiagM(<<2, 3, 1>>), T1)>>,
+                          <<T2, DiagM(<<1, 1, 1>>)>>, <<DiagM(<<2, 3, 1>>), DiagM(<<1, 1, 1>>)>>, <<DiagM(<<2, 2, 2>>), DiagM(<<1, 1, 1>>)>>,
+                          <<Q1, MatScale(2, Q1)>>, <<Q1, MatMul(MatMul(DiagM(<<1, 2, 1>>), Q1), DiagM(<<1, 2, 1>>))>>,
+                          <<T1, [T1 EXCEPT ![2][3] = 5]>> >>
+OpNames == {"eq_mat", "eq_pp", "contains_lp", "dist_pp", "dist_lp", "angle_ppp", "crossratio", "join_pp", "meet_ll", "seg_contains", "poly_contains",
             "poly_area", "conic_contains", "conic_polar", "trafo_apply", "trafo_apply_line", "trafo_compose", "is_parallel", "is_perpendicular",
             "is_collinear", "is_cocircular", "seg_midpoint", "project_lp", "mirror_lp", "dist_pp3", "contains_ep3", "join_ppp3", "eq_poly"}
 
@@ -143,9 +149,10 @@ Ans(o, a) ==
     [] o = "mirror_lp" -> [c |-> Primitive(MirrorPH(a[2], a[1]))]
     [] o = "contains_ep3" -> [b |-> PointOnHyper(a[2], a[1])]
     [] o = "join_ppp3" -> [c |-> Primitive(Join3PPP(a[1], a[2], a[3]))]
+    [] o = "eq_mat" -> [b |-> SameClass(Flatten(a[1]), Flatten(a[2]))]
     [] o = "eq_poly" -> [b |-> SameCycleH(SubSeq(a, 1, Len(a) \div 2), SubSeq(a, Len(a) \div 2 + 1, Len(a)))]
 
-IsMat(o, i) == (o \in {"conic_contains", "conic_polar", "trafo_apply", "trafo_apply_line", "trafo_compose"} /\ i = 1) \/ (o = "trafo_compose" /\ i = 2)
+IsMat(o, i) == (o = "eq_mat") \/ (o \in {"conic_contains", "conic_polar", "trafo_apply", "trafo_apply_line", "trafo_compose"} /\ i = 1) \/ (o = "trafo_compose" /\ i = 2)
 ScaleArg(o, i, x, k) == IF IsMat(o, i) THEN MatScale(k, x) ELSE VScale(k, x)
 
 Init == pc = "start" /\ op \in OpNames /\ args = <<>> /\ answer = [b |-> FALSE] /\ hist = <<>>
